@@ -31,6 +31,10 @@ extern "C" __attribute__((used, visibility("default"))) const char *__ubsan_defa
     return "print_stacktrace=1:halt_on_error=1";
 }
 
+// present only in the coverage build (bin/reach): children leave through _exit, so the profile is written explicitly
+extern "C" int __llvm_profile_write_file(void) __attribute__((weak));
+static void leave(int code) { if (__llvm_profile_write_file) __llvm_profile_write_file(); _exit(code); }
+
 static std::map<std::string, std::string> parse_args(int argc, char **argv, int from) {
     std::map<std::string, std::string> a;
     for (int i = from; i < argc; i++) {
@@ -276,7 +280,7 @@ static int cmd_work(const std::map<std::string, std::string> &a) {
             Agg agg;
             g_child_start = list.empty() ? -1 : (int64_t)list[0];
             for (uint64_t idx : list) { progress[0] = idx; run_one(seed, idx, go, false, out, agg, per_run); }
-            agg.flush(out, 0); fflush(out); _exit(0);
+            agg.flush(out, 0); fflush(out); leave(0);
         }
         int wst = 0; waitpid(pid, &wst, 0);
         if (!(WIFEXITED(wst) && WEXITSTATUS(wst) == 0)) {
@@ -322,7 +326,7 @@ static int cmd_work(const std::map<std::string, std::string> &a) {
             progress[0] = i;
             agg.flush(out, i);
             fflush(out);
-            _exit(0);
+            leave(0);
         }
         int wst = 0; waitpid(pid, &wst, 0);
         if (WIFEXITED(wst) && WEXITSTATUS(wst) == 0) break;
@@ -342,7 +346,7 @@ static int cmd_work(const std::map<std::string, std::string> &a) {
             run_one(seed, i, go, true, out, agg, per_run);
             agg.flush(out, i + 1);
             fflush(out);
-            _exit(0);
+            leave(0);
         }
         int wst = 0; waitpid(pid, &wst, 0);
         if (!(WIFEXITED(wst) && WEXITSTATUS(wst) == 0)) { page->run = (int64_t)i; report_crash(pid, wst, i); }
